@@ -1,5 +1,191 @@
 /-
-C13 — property theorems (stub: no theorem stated yet, so no obligation is counted).
+C13 — record chunks are replayable: property theorems.
+
+Model: `Hts.Model.Bgzf.BamReader` / `Iterator` (bam/reader.go newBuffer, Read's limit test, SetChunk, Iterator) and
+`Hts.Model.Bgzf.ChunkReader` (bgzf/index/index.go) over the bgzf reader model of C02.  A BAM file is any
+well-formed BGZF file (any block layout: records may end on, before or after block ends and span blocks; empty
+blocks anywhere) whose flat stream is a header followed by length-prefixed records.
 -/
+import Hts.Lemmas.BamFile
+import Hts.Lemmas.CRRun
 namespace Hts.Props.C13
+open Hts.Model.Bgzf Hts.Spec.Flat
+
+/-- `F` is a BAM file: the header decoder's reads `hs` are in order, and from the end of the header on the
+flat stream is exactly the records `bs` (bodies of 1..2^31-1 bytes, each preceded by its `block_size`). -/
+structure BamFile (F : File) (hs : List Nat) (bs : List (List UInt8)) : Prop where
+  wf : WF F
+  hdr : HdrOk (flatLen F) 0 hs
+  le : sumNat hs ≤ flatLen F
+  recs : RecAt F (sumNat hs) bs
+
+/-- The chunks noted by a sequential pass over the whole file. -/
+def seqChunks (br0 : BamReader) (n : Nat) : List Chunk := (br0.readN (n + 1)).2.1.map (·.2)
+
+/-- Reading sequentially returns every record, then `io.EOF`; the chunk noted after record `i` runs from the
+offset before its size field to the offset after its last byte. -/
+theorem sequential_pass {F : File} {hs : List Nat} {bs : List (List UInt8)} (hB : BamFile F hs bs)
+    (br0 : BamReader) (h0 : BamReader.new F hs = .ok br0) :
+    (br0.readN (bs.length + 1)).2 = (bs.zip (recChunks (layoutOf F) (sumNat hs) bs), some .eof) := by
+  obtain ⟨hc, s, hs0, hp⟩ := bam_new hB.wf hs br0 h0 hB.hdr
+  have := readN_sequential hB.wf bs br0 s hs0 hc (hp ▸ hB.recs) (hp ▸ hB.le)
+  rw [hp] at this; exact this.1
+
+theorem seqChunks_eq {F : File} {hs : List Nat} {bs : List (List UInt8)} (hB : BamFile F hs bs)
+    (br0 : BamReader) (h0 : BamReader.new F hs = .ok br0) :
+    seqChunks br0 bs.length = recChunks (layoutOf F) (sumNat hs) bs := by
+  simp only [seqChunks, sequential_pass hB br0 h0]
+  rw [List.map_snd_zip]
+  rw [recChunks_length]; exact Nat.le_refl _
+
+/-- **Monotone.** The chunks reported by the sequential pass are ordered by `vOffset`: `Begin < End` for each
+record, and `End_i ≤ Begin_{i+1}` — also when `End_i` is `(base, len)` and `Begin_{i+1}` is `(next base, 0)`. -/
+theorem record_chunks_monotone {F : File} {hs : List Nat} {bs : List (List UInt8)} (hB : BamFile F hs bs)
+    (br0 : BamReader) (h0 : BamReader.new F hs = .ok br0) :
+    ChunksMonotone (seqChunks br0 bs.length) := by
+  rw [seqChunks_eq hB br0 h0]
+  apply recChunks_monotone (lwf_of_wf hB.wf)
+  have := hB.recs.total hB.le
+  simp; omega
+
+/-- **Replay.** Let the records be `A ++ M ++ B` with `M` non-empty (records `i..j`).  From *any* state of a
+`bam.Reader` over the file, `SetChunk` to `[Begin of the first record of M, End of its last record]` (as noted
+by the sequential pass) succeeds, and reading then yields exactly the records `M`, each with the chunk the
+sequential pass noted for it, and then `io.EOF`. -/
+theorem chunk_replay {F : File} {hs : List Nat} {bs : List (List UInt8)} (hB : BamFile F hs bs)
+    (br0 : BamReader) (h0 : BamReader.new F hs = .ok br0)
+    (A M B : List (List UInt8)) (hbs : bs = A ++ M ++ B) (hM : M ≠ [])
+    (br : BamReader) (s : State) (hbr : BSim F br s) :
+    let cM := ((seqChunks br0 bs.length).drop A.length).take M.length
+    (br.setChunk (some (spanChunk cM))).2 = none ∧
+    ((br.setChunk (some (spanChunk cM))).1.readN (M.length + 1)).2 = (M.zip cM, some .eof) := by
+  subst hbs
+  intro cM
+  have hseq := seqChunks_eq hB br0 h0
+  have hspan : spanChunk cM = ChunkSpec.chunk (layoutOf F) ⟨sumNat hs + recSize A, M, B⟩ := by
+    simp only [cM, hseq]; exact spanChunk_run _ _ A M B hM
+  have hcM : cM = recChunks (layoutOf F) (sumNat hs + recSize A) M := by
+    simp only [cM, hseq]
+    rw [List.append_assoc, recChunks_append, recChunks_append,
+      List.drop_left' (recChunks_length _ _ A), List.take_left' (recChunks_length _ _ M)]
+  have hrec : RecAt F (sumNat hs + recSize A) (M ++ B) := by
+    have hr := hB.recs
+    rw [List.append_assoc] at hr
+    exact hr.skip
+  have htot := hB.recs.total hB.le
+  have hv : ChunkSpec.Valid F ⟨sumNat hs + recSize A, M, B⟩ := by
+    refine ⟨hM, hrec, ?_⟩
+    rw [List.append_assoc, recSize_append] at htot
+    simp only []; omega
+  have ⟨k1, k2⟩ := inchunk_setChunk hB.wf hbr _ hv
+  rw [hspan]
+  exact ⟨k1, by rw [readN_inchunk hB.wf M _ _ _ B k2, hcM]⟩
+
+/-- A request for the records `M` out of `bs = A ++ M ++ B`. -/
+structure Request (bs : List (List UInt8)) where
+  A : List (List UInt8)
+  M : List (List UInt8)
+  B : List (List UInt8)
+  split : bs = A ++ M ++ B
+  nonempty : M ≠ []
+
+/-- The chunk of a request, from the chunks noted by the sequential pass. -/
+def Request.chunk {bs : List (List UInt8)} (seq : List Chunk) (q : Request bs) : Chunk :=
+  spanChunk ((seq.drop q.A.length).take q.M.length)
+
+def requested {bs : List (List UInt8)} : List (Request bs) → List (List UInt8)
+  | [] => []
+  | q :: qs => q.M ++ requested qs
+
+/-- **Iterator.** For any non-empty list of such chunks in any order (overlapping, repeated, backwards), from
+any reader state: `NewIterator` succeeds, the `Next` loop sees exactly the records of the first chunk, then of
+the second, … in the order the chunks are listed, then `Next` returns false and `Error()` is nil. -/
+theorem iterator_replay {F : File} {hs : List Nat} {bs : List (List UInt8)} (hB : BamFile F hs bs)
+    (br0 : BamReader) (h0 : BamReader.new F hs = .ok br0)
+    (q : Request bs) (qs : List (Request bs))
+    (br : BamReader) (s : State) (hbr : BSim F br s) (fuel : Nat) (hf : (requested (q :: qs)).length < fuel) :
+    ∃ it, Iterator.new br ((q :: qs).map (Request.chunk (seqChunks br0 bs.length))) = .ok it ∧
+      (it.collect fuel).2 = requested (q :: qs) ∧ (it.collect fuel).1.error = none := by
+  have hseq := seqChunks_eq hB br0 h0
+  let spec : Request bs → ChunkSpec := fun q => ⟨sumNat hs + recSize q.A, q.M, q.B⟩
+  have hchunk : ∀ q : Request bs, Request.chunk (seqChunks br0 bs.length) q = (spec q).chunk (layoutOf F) := by
+    intro q
+    simp only [Request.chunk, hseq, spec]
+    have := spanChunk_run (layoutOf F) (sumNat hs) q.A q.M q.B q.nonempty
+    rw [← q.split] at this; exact this
+  have htot := hB.recs.total hB.le
+  have hvalid : ∀ q : Request bs, (spec q).Valid F := by
+    intro q
+    have hr := hB.recs
+    refine ⟨q.nonempty, ?_, ?_⟩
+    · rw [q.split, List.append_assoc] at hr
+      exact hr.skip
+    · have := htot
+      rw [q.split, List.append_assoc, recSize_append] at this
+      simp only [spec]; omega
+  have hmap : (q :: qs).map (Request.chunk (seqChunks br0 bs.length)) =
+      ((spec q) :: qs.map spec).map (·.chunk (layoutOf F)) := by
+    simp only [List.map_cons, List.map_map, hchunk]
+    congr 1
+    apply List.map_congr_left; intro x _; exact hchunk x
+  have hreq : ∀ l : List (Request bs), specRecords (l.map spec) = requested l := by
+    intro l
+    induction l with
+    | nil => rfl
+    | cons x l ih => simp [specRecords, requested, ih, spec]
+  have := iterator_new hB.wf hbr (spec q) (qs.map spec)
+    (by intro x hx; simp at hx; rcases hx with rfl | ⟨y, _, rfl⟩ <;> exact hvalid _)
+    fuel (by rw [← List.map_cons, hreq]; exact hf)
+  rw [hmap]
+  rw [← List.map_cons, hreq] at this
+  exact this
+
+/-- Every state a `bam.Reader` can be driven into by `Read`, `SetChunk` (to a chunk whose `Begin` is a seek
+target) and `SetChunk(nil)` is one of the states the two theorems above quantify over. -/
+theorem reader_states_closed {F : File} (hwf : WF F) (br : BamReader) (s : State) (h : BSim F br s) :
+    (∃ s', BSim F br.read.1 s') ∧
+    (∀ c, (∀ c', c = some c' → (seekTarget (layoutOf F) c'.bgn).isSome) → ∃ s', BSim F (br.setChunk c).1 s') :=
+  ⟨bsim_read hwf h, fun c hv => bsim_setChunk hwf h c hv⟩
+
+/-- **ChunkReader.** For every well-formed file, from any state of the underlying `bgzf.Reader`, and for every
+list of chunks that is ordered and non-overlapping (each `Begin` a seek target, each `End` any offset that
+names a position — any representation, including `(next base, 0)`, an empty block's `(base, 0)` or
+`(fileLen, 0)` — chunks may touch or be empty): `NewChunkReader` succeeds, and for **any** sequence of buffer
+sizes the bytes the client loop sees are a prefix of the flat bytes between each `Begin` and `End`,
+concatenated; the only error is `io.EOF`; when it is reported exactly those bytes have been delivered; and
+with non-empty buffers it is reported after at most `readBound` calls.
+(About the repaired `Read`, fixes/C13-1-chunkreader-empty-chunk.diff.) -/
+theorem chunkreader_exact {F : File} (hwf : WF F) (r0 : Reader) (s : State) (hsim : Sim F r0 s)
+    (xs : List CSpec) (hv : ∀ x ∈ xs, x.Valid F) (ho : Ordered xs) :
+    ∃ cr, ChunkReader.new r0 (xs.map (·.c)) = .ok cr ∧ ∀ ns : List Nat,
+      (∃ rest, expected F xs = (cr.readAll ns).1 ++ rest) ∧
+      ((cr.readAll ns).2 = none ∨ (cr.readAll ns).2 = some .eof) ∧
+      ((cr.readAll ns).2 = some .eof → (cr.readAll ns).1 = expected F xs) ∧
+      ((∀ n ∈ ns, 0 < n) → readBound F xs < ns.length → (cr.readAll ns).2 = some .eof) :=
+  chunkReader_spec hwf hsim xs hv ho
+
+/-! ### Non-vacuity -/
+
+example : BamFile exBam [4] [[9], [7, 8]] :=
+  ⟨exBam_wf, by simp [HdrOk, exBam, flatLen], by simp [sumNat, exBam, flatLen],
+   ⟨by decide, by intro b hb; simp at hb; rcases hb with rfl | rfl <;> simp⟩⟩
+
+example : ∃ br0, BamReader.new exBam [4] = .ok br0 ∧
+    (br0.readN 3).2 = ([([9], ⟨⟨0, 4⟩, ⟨0, 9⟩⟩), ([7, 8], ⟨⟨68, 0⟩, ⟨101, 3⟩⟩)], some .eof) :=
+  ⟨_, rfl, by decide⟩
+
+/-- Two chunks over `exFile` (`[1,2,3] | [] | [4,5] | []`): `[1, 3)` ending at a block end given as the empty
+block's `(30, 0)`, and `[3, 5)` ending at `(fileLen, 0)`. -/
+def exChunks : List CSpec := [⟨⟨⟨0, 1⟩, ⟨30, 0⟩⟩, 1, 3⟩, ⟨⟨⟨58, 0⟩, ⟨117, 0⟩⟩, 3, 5⟩]
+
+example : (∀ x ∈ exChunks, x.Valid exFile) ∧ Ordered exChunks := by
+  refine ⟨?_, by simp [exChunks, Ordered]⟩
+  intro x hx
+  simp [exChunks] at hx
+  rcases hx with rfl | rfl
+  · exact ⟨by simp [exFile, layoutOf, seekTarget], by simp [exFile, layoutOf, toLogical, seekTarget], by simp⟩
+  · exact ⟨by simp [exFile, layoutOf, seekTarget], by simp [exFile, layoutOf, toLogical, seekTarget, fileLen, total], by simp⟩
+
+example : expected exFile exChunks = [2, 3, 4, 5] := by decide
+
 end Hts.Props.C13
